@@ -8,7 +8,6 @@ Known defects are tagged by the predicates `_is_f1` / `_is_f11` below; everythin
 """
 from __future__ import annotations
 
-import os
 import random
 import time
 import traceback
@@ -231,7 +230,7 @@ def gen_values(tier, rng):
     for f in fixed:
         systematic += containers(f, rng)
     # random trees
-    n_random = 260 if tier == "quick" else 6000
+    n_random = 360 if tier == "quick" else 14000
     pool = {0: list(at)}
     pool[1] = [v for v in systematic if v.depth == 1]
     rand = []
@@ -369,7 +368,7 @@ def c01_cases(tier, seed):
     groups = {}
     for v in at:
         groups.setdefault(v.ordk, []).append(v)
-    n_multi = 40 if tier == "quick" else 600
+    n_multi = 60 if tier == "quick" else 600
     for _ in range(n_multi):
         op = rng.choice(["in", "getitem", "le", "ge"])
         if op in ("le", "ge"):
@@ -498,11 +497,6 @@ def rand_spec(rng, depth, width=3, dc=True):
     return Call("Inner", [], [("x", a)] + ([("y", "why")] if n > 1 else []))
 
 
-def _normalise_new(x):
-    """the *new value* is produced by the canonical expression; positional Call args are kept (same value)"""
-    return x
-
-
 def edit(x, rng, depth=0):
     """a different value derived from x: other type / longer / shorter / reordered / element changed / nested change"""
     choice = rng.random()
@@ -616,7 +610,7 @@ STYLES = ["plain", "spaces", "trail", "multi", "expr", "mixed", "quotes"]
 def c02_cases(tier, seed):
     rng = random.Random(seed * 104729 + 2)
     cases = []
-    n_pairs = 420 if tier == "quick" else 9000
+    n_pairs = 800 if tier == "quick" else 40000
     # systematic: short sequences over a tiny alphabet, every edit script shape (prefix/suffix/middle), odd leaf spellings
     alphabet = [1, 2, 3]
     seqs = [[]] + [[a] for a in alphabet] + [[a, b] for a in alphabet for b in alphabet] + [[1, 2, 3], [3, 2, 1], [1, 1, 2], [2, 1, 2]]
@@ -627,7 +621,7 @@ def c02_cases(tier, seed):
                 sys_pairs.append((old, new))
     rng.shuffle(sys_pairs)
     if tier == "quick":
-        sys_pairs = sys_pairs[:90]
+        sys_pairs = sys_pairs[:140]
     for i, (old, new) in enumerate(sys_pairs):
         t = [list, tuple][i % 2]
         style = STYLES[i % len(STYLES)]
@@ -754,6 +748,11 @@ def _fields_of(x):
 
 def only_docnorm_diffs(exp, got, counter):
     """True iff got differs from exp only at str leaves / str dict keys where got == docnorm(exp leaf)."""
+    try:
+        if exp == got:  # equal for Python (1 == True ...): nothing to explain here
+            return True
+    except Exception:
+        pass
     if type(exp) is not type(got):
         return False
     if isinstance(exp, str):
@@ -947,9 +946,15 @@ def classify(case, src, after, rr):
     gots = [v for _, v in gots]
     pairs = []
     if case["kind"] == "C01":
-        if case["placement"] == "multi" or case["op"] == "in" or len(gots) != 1:
-            return None, label  # `in` writes a list (never a lone string); multi-value cases are never tagged
-        if case["op"] == "getitem":
+        if case["op"] == "in" or len(gots) != 1:
+            return None, label  # `in` writes a list (never a lone string)
+        if case["placement"] == "multi":
+            vals = [eval(e, ns) for e in case["exprs"]]
+            if case["op"] == "getitem":
+                pairs = [({eval(k, ns): v for k, v in zip(case["keys"], vals)}, gots[0], True)]
+            else:  # the bound that has to be written: max for `v <= snapshot()`, min for `v >= snapshot()`
+                pairs = [((max if case["op"] == "le" else min)(vals), gots[0], True)]
+        elif case["op"] == "getitem":
             pairs = [({eval(case["key"], ns): eval(case["expr"], ns)}, gots[0], True)]
         else:
             pairs = [(eval(case["expr"], ns), gots[0], True)]
@@ -1008,17 +1013,18 @@ def _describe(case):
          bound="generated test modules through Example.run_inline: C01 value trees depth<=2 (quick)/3 (thorough), width<=3, 6 operations x 4 placements "
                "+ multi-value snapshots, flags=create; C02 (odd old text, new value) pairs depth<=2/3 incl. two-snapshot bodies, flags=create,fix; "
                "oracle = rewritten module compiles and re-runs green with snapshot := identity")
-def run(tier, seed):
+def run(tier, seed, pid=None):
     t0 = time.time()
     budget = 33.0 if tier == "quick" else 800.0
     deadline = t0 + budget
     res = dict(evaluated=0, distinct=0, failures=[], samples=[], cross_checks=[], skipped=0, notes=[])
     try:
-        only = os.environ.get("BOUNDED_ONLY_PROPS")
+        props = D.requested_props(["C01", "C02"], pid)
+        res["props_run"] = props
         cases = []
-        if not only or "C01" in only:
+        if "C01" in props:
             cases += c01_cases(tier, seed)
-        if not only or "C02" in only:
+        if "C02" in props:
             cases += c02_cases(tier, seed)
         # interleave so that a deadline cuts both properties evenly
         random.Random(seed).shuffle(cases)
@@ -1083,4 +1089,4 @@ def _add_failure(res, per_finding, finding, inp, detail, replay, label="other"):
         kept = sum(1 for f in res["failures"] if f["finding"] is None)
         keep = kept < 20 and lab[label] <= 5
     if keep:
-        res["failures"].append(dict(finding=finding, label=label, input=inp, detail=detail, replay_code=replay))
+        res["failures"].append(dict(finding=finding, prop=inp.get("prop"), label=label, input=inp, detail=detail, replay_code=replay))
